@@ -104,6 +104,7 @@ func (s *attackSim) run(keep bool) {
 	w.Log.Addf("config W=%d M=%d du=%d name=%q pacer=%d stopAt=%d tgtErrAt=%d cons=%d stops=%d/%d arms=%v mediate=%v plans=%d",
 		cfg.W, cfg.M, cfg.Du, cfg.Name, cfg.PacerMode, cfg.StopAtCall, cfg.TgtErrAt, cfg.Consumers, cfg.StopCalls, cfg.Stoppers, cfg.Arms, cfg.Mediate, len(cfg.Plans))
 
+	synctest.Wait() // (the gap above may have fired the ticker of a DNS refresh goroutine: let it get back to its select first)
 	w.Activate()
 	s.atkStart = w.Now()
 	for i := 0; i < cfg.Stoppers; i++ {
